@@ -275,6 +275,8 @@ def vi_exact_when_rewards_zero_tail(sx, shape, version):
 def _pi_common(sx, sh, rew, res, g, direct, isomax):
     L, AL = sh.slabels, sh.alabels
     absorbing = implicit_absorbing(sh, rew)
+    # g = 1: states that cannot reach an absorbing state carry the placeholder (default 0) in every reported entry
+    cant = {s for s in range(sh.S) if s not in absorbing and not (sh.reach_from([s]) & absorbing)} if g == 1 else set()
     if not res.converged:
         sx.cut('round cap')
     v = {s: res.state_value[L[s]] for s in range(sh.S)}
@@ -282,14 +284,21 @@ def _pi_common(sx, sh, rew, res, g, direct, isomax):
     for s in range(sh.S):
         for a in range(sh.A):
             qq = res.action_value[L[s], AL[a]]
-            if a not in sh.avail[s]:
+            if s in cant:
+                sx.prove_eq(qq, 0, f'placeholder-at-unreaching-q[{s},{a}]')
+                if a in sh.avail[s]:
+                    q[(s, a)] = qq
+            elif a not in sh.avail[s]:
                 sx.prove(core._is_inf(qq) and qq < 0, f'unavailable-action-value-neg-inf[{s},{a}]')
             else:
                 q[(s, a)] = qq
-    oq = _oracle_q(sx, sh, rew, absorbing, v)
+    oq = _oracle_q(sx, sh, rew, absorbing, v, dead=cant)
     for s in range(sh.S):
         if s in absorbing:
             sx.prove_eq(v[s], 0, f'absorbing-value-0[{s}]')
+        if s in cant:
+            sx.prove_eq(v[s], 0, f'placeholder-at-unreaching[{s}]')
+            continue
         for a in sh.avail[s]:
             # q = R + g P x with x the exact value of a policy that is isclose-greedy for q, v = max q = T x
             sx.prove_eq(q[(s, a)], oq[(s, a)], f'pi-q-is-lookahead-of-v[{s},{a}]', tol=g * isomax + F(1, 10**9))
@@ -299,12 +308,12 @@ def _pi_common(sx, sh, rew, res, g, direct, isomax):
                 qmax = q[(s, a)] if qmax is None else core.smax2(qmax, q[(s, a)])
             sx.prove_eq(v[s], qmax, f'pi-v-is-max-q[{s}]')
     sx.prove_eq(res.initial_value, ssum(sx.const(p) * v[s] for s, p in sh.s0.items()), 'initial-value')
-    _check_greedy_rows(sx, sh, res, absorbing, q, 'pi-')
+    _check_greedy_rows(sx, sh, res, absorbing | cant, q, 'pi-')
     if direct:
-        Vs, Qs = bellman_optimal(sx, sh, rew, absorbing)
+        Vs, Qs = bellman_optimal(sx, sh, rew, absorbing, dead=cant)
         tol = (2 * isomax / (1 - g)) if g < 1 else F(1, 100)
         for s in range(sh.S):
-            if s not in absorbing:
+            if s not in absorbing and s not in cant:
                 sx.prove_eq(v[s], Vs[s], f'pi-value-optimal[{s}]', tol=tol)
                 for a in sh.avail[s]:
                     sx.prove_eq(q[(s, a)], Qs[(s, a)], f'pi-q-optimal[{s},{a}]', tol=tol)
